@@ -316,6 +316,50 @@ async fn empty_psk_probe(st: &mut Stats) {
     srv.abort();
 }
 
+/// Wrong keys made of arbitrary octets (header values may carry any byte above 0x20 except DEL; hyper accepts them): a refused
+/// request is answered exactly like the same request on an unknown path, whatever the key looks like.
+async fn psk_bytes_probe(st: &mut Stats) {
+    let hv: &'static http::HeaderValue = Box::leak(Box::new(http::HeaderValue::from_static(PSK)));
+    let state = State::new().await.expect("state").with_not_found_resp("verif-404-body").with_backend_http2_support(false).with_ws_psk(Some(hv));
+    let listener = tokio::net::TcpListener::bind("127.0.0.1:0").await.expect("bind");
+    let addr = listener.local_addr().expect("addr");
+    let srv = tokio::spawn(rusty_penguin_lib::server::run_listener(listener, None, state));
+    let mut keys: Vec<Vec<u8>> = Vec::new();
+    for ascii in 0..24usize {
+        for tail in [&[0xc3u8, 0xa9][..], &[0xe2, 0x82, 0xac][..], &[0xf0, 0x9f, 0x90, 0xa7][..], &[0xff][..], &[0xc3][..], &[0x80, 0x80][..]] {
+            let mut k = vec![b'k'; ascii];
+            k.extend_from_slice(tail);
+            k.extend_from_slice(b"zz");
+            keys.push(k);
+        }
+    }
+    let mk = |path: &str, key: &[u8]| {
+        let mut r = format!("GET {path} HTTP/1.1\r\nHost: localhost\r\nConnection: upgrade\r\nUpgrade: websocket\r\nSec-WebSocket-Version: 13\r\nSec-WebSocket-Protocol: penguin-v7\r\nSec-WebSocket-Key: {KEY}\r\nX-Penguin-PSK: ").into_bytes();
+        r.extend_from_slice(key);
+        r.extend_from_slice(b"\r\n\r\n");
+        r
+    };
+    for key in &keys {
+        st.evaluations += 1;
+        let (a, b) = (net::http_once(addr, &mk("/ws", key), false).await, net::http_once(addr, &mk("/verif-unknown-path", key), false).await);
+        st.target("wrong_psk_octet_patterns", 1);
+        let replay = json!({"kind": "c14-psk-bytes", "key": format!("{key:02x?}")});
+        match (a, b) {
+            (Ok((r, _, _)), Ok((t, _, _))) => {
+                if r.status == 101 {
+                    st.violation(Violation { signature: "invalid-upgrade-accepted|psk-octets".into(), detail: format!("a wrong key {key:02x?} was answered 101"), replay });
+                } else if r.status != t.status || r.body != t.body {
+                    st.violation(Violation { signature: "distinguishable|psk-octets".into(), detail: format!("refused upgrade with key {key:02x?}: {} / {} bytes, unknown path: {} / {} bytes", r.status, r.body.len(), t.status, t.body.len()), replay });
+                }
+            }
+            (Err(e), Ok((t, _, _))) => st.violation(Violation { signature: "distinguishable|psk-octets|no-response".into(), detail: format!("the refused upgrade request with key {key:02x?} got no response ({e}); the same request on an unknown path was answered {}", t.status), replay }),
+            (_, Err(e)) => st.inconclusive.push(format!("c14 psk-bytes probe: unknown-path twin got no response ({e})")),
+        }
+    }
+    st.nontrivial(mix(0x95C, keys.len() as u64));
+    srv.abort();
+}
+
 async fn run_cfg(st: &mut Stats, cfg: &SrvCfg, cells: &[Cell]) {
     let (addr, rec) = start_server(cfg).await;
     let cfg_s = format!("psk={} obfs={} backend={} forwarding_headers={}", cfg.psk, cfg.obfs, cfg.backend, cfg.fwd);
@@ -447,6 +491,7 @@ pub fn run(p: &Params) -> (Stats, &'static str) {
     }
     if p.shard == 0 {
         rt.block_on(empty_psk_probe(&mut st));
+        rt.block_on(psk_bytes_probe(&mut st));
     }
     st.exhaustive.push("all request cells with at most two deviations from the valid upgrade request, x 12 server configurations".into());
     st.sample(json!({"request": String::from_utf8_lossy(&request_bytes(&cells[cells.len().min(100) - 1], "/ws")), "checked": "status 101 iff predicate; else response == response of the same request on /verif-unknown-path"}));
